@@ -43,6 +43,39 @@ PROPS = {
              "thorough": {"checks": 40000, "shards": 16}},
         ],
     },
+    "C08": {
+        "level": "exploration",
+        "rule": "cases are dependency graphs over ids a..f built from AddFact/AddRule with deleteWith lists (chains, fans, cycles, "
+                "self loops, dangling target 'z'), EnableRule(false) and SetProp property facts, followed by RemFact/RemRule in a "
+                "drawn order mixed with reloads and late additions; run on indexed and linear state; after every step every id's "
+                "presence/value, the rule list and the storage key set are compared with the model's transitive closure. "
+                "Non-trivial = a deletion of a present id removes >= 2 ids while >= 1 id survives. Distinct = distinct canonical JSON.",
+        "assumptions": COMMON_ASSUMPTIONS + [
+            "removing an id that is absent leaves ids naming it in deleteWith unspecified (the manual does not say whether a dangling target cascades); those ids are skipped until redefined",
+            "expiry-driven cascades are exercised by C07's virtual-time check, not here",
+        ],
+        "parts": [
+            {"name": "cascade", "mode": "plain", "test": "TestC08",
+             "quick": {"checks": 2500, "shards": 4},
+             "thorough": {"checks": 40000, "shards": 16}},
+        ],
+    },
+    "C10": {
+        "level": "exploration",
+        "rule": "cases are histories (<= 25 ops + follow-up events) over rule ids r1..r3 (and pr1..pr3 in a parent): add, overwrite "
+                "(other when, unique action tag per add), remove, disable, enable, reload, location disable/enable, child-side "
+                "disable of inherited rules, events; indexed and linear; after every step dispatch, action values, RuleEnabled, "
+                "ListRules and the all-operations-fail behaviour of a disabled location are compared with the model. "
+                "Non-trivial = the history contains disable->event, overwrite->event and reload->event. Distinct = distinct canonical JSON.",
+        "assumptions": COMMON_ASSUMPTIONS + [
+            "unspecified (skipped): disabled flag after an in-place overwrite; RuleEnabled of an id that does not exist; a child's flag for an inherited rule after the parent removed the rule",
+        ],
+        "parts": [
+            {"name": "lifecycle", "mode": "plain", "test": "TestC10",
+             "quick": {"checks": 2000, "shards": 4},
+             "thorough": {"checks": 25000, "shards": 16}},
+        ],
+    },
     "C05": {
         "level": "exploration",
         "rule": "cases are (pattern, data, initial bindings, typing mask) drawn by rapid: independent pairs, data "
@@ -77,6 +110,16 @@ TEXT = {
         "technique": _PBT + "stateful generated histories vs brute-force reference model (differential indexed/linear)",
         "level_text": "Generated-history exploration: every search/get result is compared with a brute-force model over the stored facts. Not a proof.",
         "level_note": "Trusted: reference matcher/model; sampled histories of <= 30 operations over 6 ids.",
+    },
+    "C08": {
+        "technique": _PBT + "generated dependency graphs and deletion orders vs reference transitive-closure model (memory and storage)",
+        "level_text": "Generated-graph exploration: after every step presence of every id, rule list and stored key set equal the model's closure; termination by watchdog. Not a proof.",
+        "level_note": "Trusted: reference model; graphs over 6 ids + dangling target, <= 17 operations.",
+    },
+    "C10": {
+        "technique": _PBT + "stateful generated lifecycle histories vs reference model; unique action tags make stale rules observable",
+        "level_text": "Generated-history exploration of add/overwrite/remove/disable/enable/reload/location-toggle interleavings with events. Not a proof.",
+        "level_note": "Trusted: reference model; 3 rule ids (+3 inherited), fixed small pattern/event pools, <= 25 operations.",
     },
     "C05": {
         "technique": _PBT + "generated (pattern, data, bindings) vs independent brute-force matcher; substitution round-trip; metamorphic typed variants",
